@@ -253,7 +253,7 @@ def run(ctx, res):
     from pico8.game.formatter.p8png import P8PNGFormatter
     prev = None
     for trial in range(ctx.budget(4, 24)):
-        code = rng.choice([b'', b'x=1\n', b'print("hi")\n' * rng.randrange(1, 40), bytes(rng.choice(b'abc =\n()1') for _ in range(rng.randrange(1, 3000)))])
+        code = rng.choice([b'', b'x=1\n', b'print("hi")\n' * rng.randrange(1, 40), b'--' + bytes(rng.choice(b'abc =()1') for _ in range(rng.randrange(1, 3000))) + b'\nx=1\n'])
         g = U.make_game(regions={nm: U.rand_bytes(rng, sz) for nm, sz in U.REGION_SIZES}, code=code, version=rng.choice([0, 5, 8, 8, 16]))
         how = trial % 3
         out = io.BytesIO()
